@@ -255,9 +255,48 @@ def ob_tg_mutators(timeout):
             except Exception:
                 if st(tg) != before:
                     return "textgrid changed although the call raised: " + what
+        # textgrids that know only one of their two bounds (or none)
+        for lo0, hi0 in ((None, hi), (0.0, None), (None, None)):
+            for idx in (None, 0):
+                tg = Textgrid(lo0, hi0)
+                before = st(tg)
+                try:
+                    tg.addTier(IntervalTier("c", [], 0.0, nhi), idx, "error")
+                except Exception:
+                    if st(tg) != before:
+                        return "textgrid with span (%r, %r) changed although addTier raised" % (lo0, "hi" if hi0 is not None else None)
         return True
 
     return Ob("tg-mutators-all-or-nothing", F(*names), body, pre, fmode="real", timeout=timeout, setup=_setup_print, funcs=FUNCS[3:4], bounds="2 tiers; new tier span [0,nhi] smaller or larger than the textgrid's")
+
+
+def ob_insert_invalid_option(kind, timeout):
+    """insertEntry with an option value that is not one of the documented ones raises and
+    leaves the tier as it was - also when the new entry collides with an existing one"""
+    names = ["hi", "t0", "t1", "nt", "ne"]
+
+    def pre(hi, t0, t1, nt, ne):
+        return within(0.0, hi, t0, t1, nt, ne) & (t0 < t1) & (nt < ne) & (hi <= 512.0)
+
+    def body(hi, t0, t1, nt, ne):
+        for cm, rm in (("replace", "loud"), ("merge", "WARNING"), ("error", "loud"), ("replace", None), ("overwrite", "silence"), ("overwrite", "loud")):
+            if kind == "point":
+                tier = PointTier("p", [Point(t0, "x"), Point(t1, "y")], 0.0, hi)
+                new = Point(nt, "n")
+            else:
+                tier = IntervalTier("t", [Interval(t0, t1, "x")], 0.0, hi)
+                new = Interval(nt, ne, "n")
+            before = snap_tier(tier)
+            try:
+                tier.insertEntry(new, cm, rm)
+            except errors.PraatioException:
+                if snap_tier(tier) != before:
+                    return "tier changed although insertEntry rejected the option values (%r, %r)" % (cm, rm)
+                continue
+            return "option values (%r, %r) accepted" % (cm, rm)
+        return True
+
+    return Ob("%s-insert-invalid-option" % kind[0], F(*names), body, pre, fmode="real", timeout=timeout, setup=_setup_print, funcs=FUNCS[:2], bounds="%s tier, new entry anywhere (also exactly on / overlapping an existing one), 6 invalid option combinations" % kind)
 
 
 # ------------------------------------------------------------------ save
@@ -375,6 +414,8 @@ def obligations(tier):
         for op in sorted(TG_OPS):
             obs.append(ob_tg_nomut(op, T))
         obs.append(ob_tg_mutators(T))
+        obs.append(ob_insert_invalid_option("point", T))
+        obs.append(ob_insert_invalid_option("interval", T))
         for v in SAVE_VARIANTS:
             obs.append(ob_save("short_textgrid", True, v, T))
         obs.append(ob_save("json", False, "override", T))
@@ -394,6 +435,8 @@ def obligations(tier):
         for op in sorted(TG_OPS):
             obs.append(ob_tg_nomut(op, 1200))
         obs.append(ob_tg_mutators(600))
+        obs.append(ob_insert_invalid_option("point", 600))
+        obs.append(ob_insert_invalid_option("interval", 600))
         for fmt in ("short_textgrid", "long_textgrid", "json", "textgrid_json"):
             for bl in (True, False):
                 for v in SAVE_VARIANTS:
